@@ -370,6 +370,45 @@ pub fn render_integer(
 	// Digit char indexes in reverse order, i.e
 	// for radix = 16 and n = 12f: [15, 2, 1]
 	let digits = integer_digits(iv, radix as u32);
+	let digits: String = digits
+		.into_iter()
+		.rev()
+		.map(|digit| {
+			let ch = NUMBERS[digit as usize] as char;
+			if caps {
+				ch.to_ascii_uppercase()
+			} else {
+				ch
+			}
+		})
+		.collect();
+	render_digits(
+		out,
+		neg,
+		&digits,
+		padding,
+		precision,
+		blank,
+		sign,
+		zero_prefix,
+		prefix_in_padding,
+	);
+}
+
+/// Sign, prefix and zero padding in front of the digits of a number,
+/// which are given most significant first.
+#[allow(clippy::fn_params_excessive_bools)]
+fn render_digits(
+	out: &mut String,
+	neg: bool,
+	digits: &str,
+	padding: u16,
+	precision: u16,
+	blank: bool,
+	sign: bool,
+	zero_prefix: &str,
+	prefix_in_padding: bool,
+) {
 	#[allow(clippy::bool_to_int_with_if)]
 	let zp = padding.saturating_sub(if neg || blank || sign { 1 } else { 0 });
 
@@ -393,10 +432,7 @@ pub fn render_integer(
 		out.push('0');
 	}
 
-	for digit in digits.into_iter().rev() {
-		let ch = NUMBERS[digit as usize] as char;
-		out.push(if caps { ch.to_ascii_uppercase() } else { ch });
-	}
+	out.push_str(digits);
 }
 
 pub fn render_decimal(
@@ -468,10 +504,57 @@ pub fn render_hexadecimal(
 	);
 }
 
+/// `|n|` in decimal, rounded to `precision` digits after the point: `ddd.ddd`,
+/// or `ddd` for precision 0.
+///
+/// The standard library prints the exact value of the double, correctly rounded
+/// (ties to even), as C and Python do. Scaling by `10^precision` in `f64`
+/// arithmetic is only exact below 2^53: `"%f" % 1e21` ended in `.555072`.
+fn float_digits(n: f64, precision: u16) -> String {
+	format!("{:.*}", usize::from(precision), n.abs())
+}
+
+/// `|n|` in scientific notation: the mantissa, rounded to `precision` digits after
+/// the point (`d.ddd`, or `d` for precision 0), and the decimal exponent.
+///
+/// Both are exact, see [`float_digits`]; in particular the exponent is the one of the
+/// rounded value, `9.5` with precision 0 is `1e1`.
+fn float_sci_digits(n: f64, precision: u16) -> (String, i32) {
+	let text = format!("{:.*e}", usize::from(precision), n.abs());
+	let (mantissa, exponent) = text.split_once('e').unwrap_or((&text, "0"));
+	(mantissa.to_owned(), exponent.parse().unwrap_or(0))
+}
+
 #[allow(clippy::fn_params_excessive_bools)]
 pub fn render_float(
 	out: &mut String,
 	n: f64,
+	padding: u16,
+	precision: u16,
+	blank: bool,
+	sign: bool,
+	ensure_pt: bool,
+	trailing: bool,
+) {
+	render_float_digits(
+		out,
+		n < 0.0,
+		&float_digits(n, precision),
+		padding,
+		precision,
+		blank,
+		sign,
+		ensure_pt,
+		trailing,
+	);
+}
+
+/// `digits` is the number as written by [`float_digits`], with `precision` digits after the point.
+#[allow(clippy::fn_params_excessive_bools)]
+fn render_float_digits(
+	out: &mut String,
+	neg: bool,
+	digits: &str,
 	mut padding: u16,
 	precision: u16,
 	blank: bool,
@@ -479,49 +562,59 @@ pub fn render_float(
 	ensure_pt: bool,
 	trailing: bool,
 ) {
-	// Represent the rounded number as an integer * 1/10**prec.
-	// Note that it can also be equal to 10**prec and we'll need to carry
-	// over to the wholes.  We operate on the absolute numbers, so that we
-	// don't have trouble with the rounding direction.
-	let denominator = 10.0f64.powi(i32::from(precision));
-	let numerator = n.abs().mul_add(denominator, 0.5);
-	let whole = (numerator / denominator).floor();
-	let frac = numerator.floor() % denominator;
+	let (whole, frac) = digits.split_once('.').unwrap_or((digits, ""));
 
 	#[allow(clippy::bool_to_int_with_if)]
 	let dot_size = if precision == 0 && !ensure_pt { 0 } else { 1 };
 	padding = padding.saturating_sub(dot_size + precision);
-	render_decimal(out, n < 0.0, whole, padding, 0, blank, sign);
-	if precision == 0 {
-		if ensure_pt {
-			out.push('.');
-		}
-		return;
-	}
-	if trailing || frac > 0.0 {
-		out.push('.');
-		let mut frac_str = String::new();
-		render_decimal(&mut frac_str, false, frac, precision, 0, false, false);
-		let mut trim = frac_str.len();
-		if !trailing {
-			for b in frac_str.as_bytes().iter().rev() {
-				if *b == b'0' {
-					trim -= 1;
-				} else {
-					break;
-				}
-			}
-		}
-		out.push_str(&frac_str[..trim]);
-	} else if ensure_pt {
+	render_digits(out, neg, whole, padding, 0, blank, sign, "", false);
+
+	let frac = if trailing {
+		frac
+	} else {
+		frac.trim_end_matches('0')
+	};
+	if !frac.is_empty() || ensure_pt {
 		out.push('.');
 	}
+	out.push_str(frac);
 }
 
 #[allow(clippy::fn_params_excessive_bools)]
 pub fn render_float_sci(
 	out: &mut String,
 	n: f64,
+	padding: u16,
+	precision: u16,
+	blank: bool,
+	sign: bool,
+	ensure_pt: bool,
+	trailing: bool,
+	caps: bool,
+) {
+	let (mantissa, exponent) = float_sci_digits(n, precision);
+	render_sci_digits(
+		out,
+		n < 0.0,
+		&mantissa,
+		exponent,
+		padding,
+		precision,
+		blank,
+		sign,
+		ensure_pt,
+		trailing,
+		caps,
+	);
+}
+
+/// `mantissa` and `exponent` are the number as split by [`float_sci_digits`].
+#[allow(clippy::fn_params_excessive_bools)]
+fn render_sci_digits(
+	out: &mut String,
+	neg: bool,
+	mantissa: &str,
+	exponent: i32,
 	mut padding: u16,
 	precision: u16,
 	blank: bool,
@@ -530,22 +623,11 @@ pub fn render_float_sci(
 	trailing: bool,
 	caps: bool,
 ) {
-	let exponent = if n == 0.0 {
-		0.0
-	} else {
-		n.abs().log10().floor()
-	};
-
-	let mantissa = if exponent as i16 == -324 {
-		n * 10.0 / 10.0_f64.powf(exponent + 1.0)
-	} else {
-		n / 10.0_f64.powf(exponent)
-	};
 	let mut exponent_str = String::new();
 	render_decimal(
 		&mut exponent_str,
-		exponent < 0.0,
-		exponent.abs(),
+		exponent < 0,
+		f64::from(exponent.unsigned_abs()),
 		3,
 		0,
 		false,
@@ -555,15 +637,16 @@ pub fn render_float_sci(
 	// +1 for e
 	padding = padding.saturating_sub(exponent_str.len() as u16 + 1);
 
-	render_float(
-		out, mantissa, padding, precision, blank, sign, ensure_pt, trailing,
+	render_float_digits(
+		out, neg, mantissa, padding, precision, blank, sign, ensure_pt, trailing,
 	);
 	out.push(if caps { 'E' } else { 'e' });
 	out.push_str(&exponent_str);
 }
 
-/// Digits of e/f/g conversions are generated by scaling with `10^precision`,
-/// which has to be a finite double
+/// Largest precision of e/f/g conversions, `FieldWidthTooLarge` above.
+/// The digits used to be generated by scaling with `10^precision`, which had to be
+/// a finite double; the limit also keeps `precision + 1` within `u16`.
 const MAX_FLOAT_PRECISION: u16 = 308;
 
 #[allow(clippy::too_many_lines)]
